@@ -54,7 +54,7 @@ var runeGen = rapid.OneOf(
 // astral character (a surrogate pair) straddling or next to that boundary - block-wise
 // decoders break exactly there.
 func longText(t *rapid.T, l string) string {
-	n := rapid.SampledFrom([]int{255, 256, 257, 511, 512, 1023, 1024, 1025, 2047, 2048, 2049, 4095, 4096, 4097, 8192}).Draw(t, l+"_n")
+	n := rapid.SampledFrom([]int{255, 256, 257, 511, 512, 1023, 1024, 1025, 2047, 2048, 2049, 4095, 4096, 4097, 8192, 16384, 32767, 32768, 65535, 65536, 65537, 131071, 131072}).Draw(t, l+"_n")
 	pre := n + rapid.IntRange(-3, 2).Draw(t, l+"_off")
 	if pre < 0 {
 		pre = 0
